@@ -40,8 +40,8 @@ def make_copy(patch=None):
 
 
 def run_check(prop, root, tier):
-    env = dict(os.environ, ODATA_REPO=root, PYTHONPATH="/verif", SA_EVIDENCE_DIR=os.path.join(root, "_evidence"))
-    rc, out = sh(["/venv/bin/python", "-m", "sa.check", prop, "--tier", tier], cwd="/verif", env=env)
+    env = dict(os.environ, ODATA_REPO=root, PYTHONPATH=os.environ.get("SA_ROOT", "/verif"), SA_EVIDENCE_DIR=os.path.join(root, "_evidence"))
+    rc, out = sh(["/venv/bin/python", "-m", "sa.check", prop, "--tier", tier], cwd=os.environ.get("SA_ROOT", "/verif"), env=env)
     lines = out.splitlines()
     detail = [l for l in lines if f"[{prop}/" in l and not l.startswith("KNOWN-FINDING")]
     err = [l for l in lines if l.startswith("ANALYSIS-ERROR")]
